@@ -41,6 +41,7 @@ _PROVISIONAL = {
     "C06": "Quaver file <-> chart",
     "C07": "O2Jam reading",
     "C08": "converters preserve content",
+    "C09": "read -> convert -> write",
     "C11": "reseating tempo changes",
     "C12": "stacking writes through",
     "C13": "rate change",
